@@ -14,7 +14,7 @@ echo "suite ok with change ($(grep -c '^ok' /tmp/seedtest.$$) packages ok)"; rm 
 rundemo() {
   case $KIND in
     gotest) cp zz_seed/$1 $2; go test -vet=off -count=1 -run "$3" $4 > /tmp/demo.$$ 2>&1; rc=$?; rm -f $2; tail -3 /tmp/demo.$$; return $rc;;
-    script) sh $1 > /tmp/demo.$$ 2>&1; rc=$?; tail -3 /tmp/demo.$$; return $rc;;
+    script) bash $1 > /tmp/demo.$$ 2>&1; rc=$?; tail -3 /tmp/demo.$$; return $rc;;
   esac
 }
 rundemo "$@"; with=$?
